@@ -78,13 +78,13 @@ inductive Seg where
 /-- error classes (message texts are reduced to these by the harness) -/
 inductive ErrCls where
   | resolver | notAField (name : String) | unknownArg (name : String) | required (name : String)
-  | leaf | notAList | directive | noSelection | noOperation
+  | leaf | notAList | directive | noSelection | noOperation | invalidDoc
   deriving Repr, Inhabited, DecidableEq
 
 def ErrCls.render : ErrCls → String
   | .resolver => "resolver" | .notAField n => "not-a-field:" ++ n | .unknownArg n => "unknown-arg:" ++ n
   | .required n => "required:" ++ n | .leaf => "leaf" | .notAList => "not-a-list" | .directive => "directive"
-  | .noSelection => "no-selection" | .noOperation => "no-operation"
+  | .noSelection => "no-selection" | .noOperation => "no-operation" | .invalidDoc => "invalid-document"
 
 structure Err where
   path : List Seg
@@ -135,6 +135,7 @@ structure Cfg where
   keepValueOnError : Bool := true   -- D20: a resolver returning value and error keeps the value in data
   argCountCheckOnly : Bool := true  -- D23: unknown arguments are reported only when the counts differ, and only on object containers
   opFallbackAnyName : Bool := true  -- D11: a name that matches no operation falls back to the document's only operation
+  anonAmongOthers : Bool := true    -- D96: an operation without a name is accepted next to other operations
   dupKeyOverwrites : Bool := true   -- D12: a response key selected again replaces the earlier value instead of being merged with it
   maxDepth : Nat := 100
 
@@ -346,5 +347,15 @@ def run (env : Env) (ops : List Op) (opName : String) (rootNode : Nat) (rootTy :
       if op.sels.isEmpty then { data := some (.obj []), acc := { errs := [⟨[], .noSelection⟩] } } else
       let r := rSels env rootNode ty (env.cfg.maxDepth - 1) [] op.sels
       { data := some (.obj r.1), acc := r.2 }
+
+/-- `Executable.Validate`, the rule that concerns the choice of operation: an operation without a name must be
+the only operation of the document -/
+def loneAnonymousOk (ops : List Op) : Bool := ops.length ≤ 1 || ops.all (fun o => !o.name.isEmpty)
+
+/-- the whole request: validation of the document (the rule above; as coded at first it was missing, D96), then
+the walk.  A rejected document answers with errors only: no `data` entry, no resolver invoked. -/
+def request (env : Env) (ops : List Op) (opName : String) (rootNode : Nat) (rootTy : String → Option String) : Response :=
+  if !env.cfg.anonAmongOthers && !loneAnonymousOk ops then { data := none, acc := { errs := [⟨[], .invalidDoc⟩] } }
+  else run env ops opName rootNode rootTy
 
 end Ggql.Walk
